@@ -582,6 +582,9 @@ func c19InprocRun(c *runner.Ctx) {
 	if c.Idx%2 == 1 {
 		maxP = int64(tierN(c.Tier, 2500, 20000)) // tiny segments: every read index
 	}
+	if c.Idx%50 == 0 {
+		maxP = 200 // the jumbo segment's script needs ~50 000 reads per run: sample it sparsely
+	}
 	if total-loadReads > maxP {
 		stride = (total-loadReads)/maxP + 1
 	}
@@ -823,7 +826,7 @@ func c19StraceRun(c *runner.Ctx) {
 		return
 	}
 	desc := fmt.Sprintf("file-backed segment docs=%d fields=%q; worker process under strace, %d pread64 for Load and %d for the script of %d calls", len(x.Docs), x.Fields, loadReads, total-loadReads, len(healthy))
-	maxPoints := tierN(c.Tier, 24, 300)
+	maxPoints := tierN(c.Tier, 24, 80)
 	step := 1
 	if total-loadReads > maxPoints {
 		step = (total - loadReads) / maxPoints
@@ -909,7 +912,7 @@ func init() {
 		Phases: []runner.Phase{
 			{Name: "inprocess", Cases: cases(48, 600), Run: c19InprocRun},
 			{Name: "file", Cases: cases(32, 300), Run: c19FileRun},
-			{Name: "strace", Cases: cases(16, 160), Run: c19StraceRun},
+			{Name: "strace", Cases: cases(16, 64), Run: c19StraceRun},
 		},
 		Floors: func(string) map[string]int64 {
 			return map[string]int64{"fault_points_inprocess": 5000, "fault_points_close": 300, "fault_points_truncate": 300, "fault_points_strace": 100, "scripts_enumerated_exhaustively": 6}
